@@ -46,7 +46,10 @@ def h_nominal(E, shape):
     xv = [mag(E, f"xv{j}", W0) for j in range(n)]
     cv = [mag(E, f"cv{i}", W0) for i in range(m)]
     ov = mag(E, "ov", W0, allow_zero=False)
-    sc = Scaling.from_nominal_values(arr(xv), arr(cv), ov)
+    xva, cva = arr(xv), arr(cv)
+    snaps = common.snapshot([("nominal variable values", xva), ("nominal constraint values", cva)])
+    sc = Scaling.from_nominal_values(xva, cva, ov)
+    common.check_snapshots(E, snaps, "C11.scaling_inputs_unchanged")
     E.prove(is_int_weights(sc.var_weights) and is_int_weights(sc.cons_weights), "C20.weights_are_integers")
     vw, cw = items(sc.var_weights), items(sc.cons_weights)
     for j in range(n):
@@ -65,7 +68,10 @@ def h_gradjac(E, shape):
     pattern = [tuple(p) for p in shape.get("pattern", [(i, j) for i in range(m) for j in range(n)])]
     ent = [(i, j, mag(E, f"J{i}_{j}_{k}", W0)) for k, (i, j) in enumerate(pattern)]
     J = common.make_sparse(shape.get("fmt", "coo"), (m, n), ent) if m else None
-    sc = Scaling.from_grad_jac(arr(g), J)
+    ga = arr(g)
+    snaps = common.snapshot([("gradient", ga)] + ([("jacobian", J)] if m else []))
+    sc = Scaling.from_grad_jac(ga, J)
+    common.check_snapshots(E, snaps, "C11.scaling_inputs_unchanged")
     E.prove(is_int_weights(sc.var_weights) and is_int_weights(sc.cons_weights), "C20.weights_are_integers")
     vw, cw = items(sc.var_weights), items(sc.cons_weights)
     for j in range(n):
@@ -122,10 +128,12 @@ def h_kkt(E, shape):
     Jm = common.make_sparse(shape.get("fmt", "coo"), (m, n), jent)
     old = scale.np
     scale.np = FrexpCounter(old, U)
+    snaps = common.snapshot([("hessian", Hm), ("jacobian", Jm)])
     try:
         sc = scale.Scaling.from_equilibrated_kkt(Hm, Jm)
     finally:
         scale.np = old
+    common.check_snapshots(E, snaps, "C11.scaling_inputs_unchanged")
     E.prove(is_int_weights(sc.var_weights) and is_int_weights(sc.cons_weights), "C20.weights_are_integers")
     vw, cw = items(sc.var_weights), items(sc.cons_weights)
     D = [-w for w in vw] + list(cw)
@@ -159,10 +167,11 @@ def h_dispatch(E, shape):
     scale = boot.mod("scale")
     W0 = shape["W0"]
     kind = shape["kind"]
-    user, spec = common.make_problem(E, ["free"], ["eq0"], fmt=shape.get("fmt", "coo"))
+    user, spec = common.make_problem(E, ["free"], ["eq0"], fmt=shape.get("fmt", "coo"), policy=shape.get("policy", "fresh"))
     xs = mag(E, "xs", W0)
     ys = E.real("ys")
     params = P.Params(scaling_type=P.ScalingType[kind], scaling_primal=arr([xs]), scaling_dual=arr([ys]))
+    snaps = common.snapshot([("params.scaling_primal", params.scaling_primal), ("params.scaling_dual", params.scaling_dual)])
     gv = E.uf("g0", xs)
     cv = E.uf("c0", xs)
     Jv = E.uf("J0_0", xs)
@@ -170,6 +179,9 @@ def h_dispatch(E, shape):
         a = sabs(v)
         E.assume(lor(v == 0, land(a >= 2.0 ** (-W0), a <= 2.0 ** W0)))
     sc = scale.create_scaling(user, params, params.scaling_primal, params.scaling_dual)
+    common.check_snapshots(E, snaps, "C11.scaling_inputs_unchanged")
+    if spec["handed"]:
+        common.check_snapshots(E, spec["handed"], "C11.scaling_leaves_cached_callback_results_unchanged")
     vw, cw = items(sc.var_weights), items(sc.cons_weights)
     E.prove(is_int_weights(sc.var_weights) and is_int_weights(sc.cons_weights), "C20.weights_are_integers")
     okp = True
